@@ -61,7 +61,9 @@ def make(ck, rnd, n):
                 what = 'verilog:%s:%s:style%d:bf%d' % (lname, key, seed, int(bf))
                 texts[what] = text
 
-                def parse(text=text, bf=bf, tlib=tlib):
+                def parse(text=text, bf=bf, tlib=tlib, again=rnd.random() < 0.25):
+                    if again:
+                        scrap(verilog.parse(text, tlib=tlib, branchforks=bf))
                     c = verilog.parse(text, tlib=tlib, branchforks=bf)
                     c.resolve_tlib_cells(tlib)
                     return c
@@ -90,6 +92,8 @@ def make(ck, rnd, n):
         what = 'bench-vs-verilog:%s' % gen.digest(mod)
         texts[what] = btxt + '\n-----\n' + vtxt
         try:
+            if rnd.random() < 0.4:
+                scrap(bench.parse(btxt))        # history: the same text was parsed before and that result was edited (an ECO)
             bc = bench.parse(btxt)
         except Exception as e:
             recs.append(dict(pid=PID, what=what, lib=lib, raised=True, resolve=False, onlyforks=False, before=nets.struct_t(hdl.build(mod, tlib)),
@@ -107,6 +111,19 @@ def make(ck, rnd, n):
         r2, _ = rec(truth, lambda bc=bc: bc, lib, set(), 'bench:%s' % gen.digest(mod), resolve=False)
         recs.append(r2)
     return recs, texts
+
+
+def scrap(c):
+    """Edit a parsed circuit (remove a cell with its lines, swap two ports): whoever parses the same text again must get the
+    netlist as written, not this object."""
+    victim = next((n for n in c.nodes if n.kind != '__fork__' and n not in c.io_nodes), None)
+    if victim is not None:
+        for l in list(victim.ins) + list(victim.outs):
+            if l is not None:
+                l.remove()
+        victim.remove()
+    if len(c.io_nodes) >= 2:
+        c.io_nodes[0], c.io_nodes[-1] = c.io_nodes[-1], c.io_nodes[0]
 
 
 def main(tier=None, replay=None):
